@@ -519,6 +519,10 @@ class HyperscanTokenizer(Tokenizer):
                 start = byte_to_str_offset[start]
                 end = byte_to_str_offset[end]
                 m = extractor.compiled_regex.match(text[start:end])
+                if m is None:
+                    # hyperscan's byte-based character classes can accept
+                    # text that python's unicode-aware ones reject
+                    continue
                 yield extractor.get_token(m, offset=start)
 
     @property
